@@ -451,7 +451,10 @@ func NewSecurityManager() *SecurityManager {
 
 // ClientHandshake performs a client-side security handshake on the given stream
 func (sm *SecurityManager) ClientHandshake(ctx context.Context, s *stream.Stream) error {
-	auth := NewAuthenticator(sm.config, s)
+	// Per-connection copy: NewAuthenticator stores this connection's ephemeral
+	// ECDH public key in the config, and one manager serves many connections.
+	cfg := *sm.config
+	auth := NewAuthenticator(&cfg, s)
 	_, err := auth.ClientHandshake(ctx)
 	if err != nil {
 		return err
@@ -463,7 +466,8 @@ func (sm *SecurityManager) ClientHandshake(ctx context.Context, s *stream.Stream
 
 // ServerHandshake performs a server-side security handshake on the given stream
 func (sm *SecurityManager) ServerHandshake(ctx context.Context, s *stream.Stream) error {
-	auth := NewAuthenticator(sm.config, s)
+	cfg := *sm.config // per-connection copy, see ClientHandshake
+	auth := NewAuthenticator(&cfg, s)
 	_, err := auth.ServerHandshake(ctx)
 	if err != nil {
 		return err
